@@ -201,7 +201,7 @@ CHECKS = {
     ),
     "C05": dict(
         level="exploration",
-        required_probes=['checked_value', 'checked_grad', 'checked_sens', 'checked_hess', 'first_use_compared', 'repeated_request_compared', 'set_up_again', 'num_subsets_changed', 'model_changed_on_same_object', 'penalised_hessian_product_checked', 'tof_range_requested', 'measured_data_replaced_on_same_object'],
+        required_probes=['checked_value', 'checked_grad', 'checked_sens', 'checked_hess', 'first_use_compared', 'repeated_request_compared', 'set_up_again', 'num_subsets_changed', 'model_changed_on_same_object', 'penalised_hessian_product_checked', 'tof_range_requested', 'measured_data_replaced_on_same_object', 'subset_sensitivity_as_used_by_osmaposl_checked'],
         parts=[dict(harness="chk_C05", variant="seq", src="checks/chk_C05.cpp",
                     runs=dict(quick=4000, thorough=160000), wall_cap=dict(quick=110, thorough=2400)),
                dict(harness="chk_C05", variant="omp", src="checks/chk_C05.cpp",
